@@ -1011,6 +1011,39 @@ func LiveSUTTasks() []*Task {
 	return out
 }
 
+// StateCond is a Waitable over the simulator's own view of the SUT: it lets the harness place a fault
+// (a Stop, a Close) at the moment an interesting internal condition holds, instead of at a random time.
+//   BlockedIn != "": some SUT task is blocked in an operation whose description contains it
+//   LiveSite/LiveAtLeast: at least that many SUT tasks created at a site containing LiveSite are alive
+type StateCond struct {
+	BlockedIn   string
+	LiveSite    string
+	LiveAtLeast int
+}
+
+//go:norace
+func (c *StateCond) Ready(*Task) bool {
+	if c.BlockedIn != "" {
+		for t := W.tasks; t != nil; t = t.next {
+			if t.SUT && t.state == stBlocked && containsStr(t.Wreason, c.BlockedIn) {
+				return true
+			}
+		}
+		return false
+	}
+	return CountLiveSUT(c.LiveSite) >= c.LiveAtLeast
+}
+
+// WaitState blocks until the condition holds or the absolute sim deadline passes.
+//
+//go:norace
+func WaitState(c *StateCond, deadline int64) bool {
+	if c.Ready(nil) {
+		return true
+	}
+	return Block(c, 0, "harness: waiting for SUT state", deadline)
+}
+
 // CountLiveSUT counts SUT tasks that have not exited and whose creation site contains sub.
 //
 //go:norace
